@@ -33,9 +33,9 @@ var microStub = []string{"backend connections (scripted RoundTripper behind the 
 var plans = map[string]*Plan{
 	"C07": {
 		Level:     "exploration",
-		Scenarios: []ScenPlan{{"cb", 60000, 1500000}},
+		Scenarios: []ScenPlan{{"cb", 60000, 1500000}, {"lbcb", 20000, 400000}},
 		QuickWallS: 90, ThoroughWallS: 1500,
-		Rule:        "Scenario cb: real CircuitBreaker, (failure_threshold, success_threshold, max_requests) in 1..3^3, interval/timeout 1..10s, 1-4 client tasks with drawn scripts of exec(ok|fail|panic, duration)/sleep; history checked against the C07 envelope rules.",
+		Rule:        "Scenario lbcb: the breaker as wired in the balancer (config drawn from the validator's accepted space; 5xx / unreachable / aborted responses; N failures must open, open must reject without backend contact). Scenario cb: real CircuitBreaker, (failure_threshold, success_threshold, max_requests) in 1..3^3, interval/timeout 1..10s, 1-4 client tasks with drawn scripts of exec(ok|fail|panic, duration)/sleep; history checked against the C07 envelope rules.",
 		Real:        []string{"internal/circuitbreaker (instrumented)"},
 		Stub:        []string{"the protected call (a harness closure that sleeps on the fake clock and then succeeds, fails or panics)", "clock", "goroutine choice at sync seams"},
 		Assumptions: commonAssumptions,
@@ -43,9 +43,9 @@ var plans = map[string]*Plan{
 	},
 	"C08": {
 		Level:     "exploration",
-		Scenarios: []ScenPlan{{"cb", 60000, 1500000}},
+		Scenarios: []ScenPlan{{"cb", 60000, 1500000}, {"lbcb", 20000, 400000}},
 		QuickWallS: 90, ThoroughWallS: 1500,
-		Rule:        "Scenario cb followed by the recovery script (advance past timeout, then successful requests one at a time); deadlock / no-progress detection by the scheduler's wait-for graph.",
+		Rule:        "Scenario lbcb: wired breaker with accepted configurations, recovery through ServeHTTP, deadlock detection on state-change notifications. Scenario cb followed by the recovery script (advance past timeout, then successful requests one at a time); deadlock / no-progress detection by the scheduler's wait-for graph.",
 		Real:        []string{"internal/circuitbreaker (instrumented)"},
 		Stub:        []string{"the protected call", "clock", "goroutine choice at sync seams"},
 		Assumptions: commonAssumptions,
@@ -106,5 +106,29 @@ var plans = map[string]*Plan{
 		Rule:        "Scenario rl: the real TokenBucketRateLimiter, max_tokens 1-5, refill 1s-2h, 1-4 clients with drawn arrival scripts on the fake clock (sequential requests, same-instant bursts of 2-8 (thorough up to 64) tasks, gaps of fractions/multiples of refill, idle hours so the hourly bucket expiry runs); oracle: every pair of admissions within max+floor(T/refill)+1, same-instant <= max, full first burst, refill after idling, isolation by differential execution against a second limiter that only sees client A. Scenario rllb: limiter wired in the balancer: 429 not forwarded and counted, client-key precedence XFF > X-Real-IP > peer.",
 		Real:        microReal, Stub: microStub, Assumptions: commonAssumptions,
 		ExpectProbes: []string{"concurrent-burst", "idle-beyond-bucket-expiry", "lb-level-429"},
+	},
+	"C19": {
+		Level:     "exploration",
+		Scenarios: []ScenPlan{{"lbstop", 30000, 600000}},
+		QuickWallS: 120, ThoroughWallS: 1500,
+		Rule:        "Scenario lbstop: balancer with active probing (interval 2-6s, fast/slow/refusing/failing probe endpoints), Stop() at a drawn virtual instant (before the first probe, mid-probe, between ticks, at a tick) under a drawn interleaving, 1-3 repeated or concurrent Stop calls, optional traffic; oracle: Stop returns within one probe timeout, no probe after the first Stop returned, no WaitGroup Add racing Wait at zero.",
+		Real:        microReal, Stub: microStub, Assumptions: commonAssumptions,
+		ExpectProbes: []string{"repeated-stop"},
+	},
+	"C20": {
+		Level:     "exploration",
+		Scenarios: []ScenPlan{{"wspool", 40000, 800000}},
+		QuickWallS: 120, ThoroughWallS: 1500,
+		Rule:        "Scenario wspool: the real WebSocketPool, max_idle 0-3, idle_timeout 1-90s, 1-2 backends, 1-3 holder tasks with drawn scripts over get/put(new)/put(held)/close/sleep/stats, cleanup ticks on the fake clock, shutdown; exclusivity, staleness, idle bound, shutdown closure checked against the harness' own view of every connection.",
+		Real:        []string{"internal/loadbalancer WebSocketPool (instrumented)"}, Stub: []string{"connections (in-memory fake net.Conn)", "clock", "goroutine choice at sync seams"}, Assumptions: commonAssumptions,
+		ExpectProbes: []string{"pool-hit", "shutdown"},
+	},
+	"C16": {
+		Level:     "exploration",
+		Scenarios: []ScenPlan{{"ids", 6000, 40000}},
+		QuickWallS: 120, ThoroughWallS: 1500,
+		Rule:        "Scenario ids: the real RequestContextMiddleware, default/custom header names, features on/off, client-supplied values (empty, padded, long, unusual), 1-8 (thorough 8-64) concurrent tasks generating identifiers at one frozen virtual instant; pairwise distinctness, echo, handler-sees-what-client-gets.",
+		Real:        []string{"internal/logging middleware"}, Stub: []string{"inner handler", "ResponseWriter", "clock"}, Assumptions: commonAssumptions,
+		ExpectProbes: []string{"ids-generated"},
 	},
 }
